@@ -84,6 +84,8 @@ fn expect_union(cx: &mut Cx, what: &str, parts: &[(&Doc, f64, f64)], joint: &Doc
     }
 }
 
+const BLANKS: [char; 5] = ['\u{a0}', '\u{2003}', '\u{2007}', '\u{202f}', '\u{3000}'];
+
 fn nonblank(s: &str) -> bool {
     s.chars().any(|c| !c.is_whitespace())
 }
@@ -135,6 +137,24 @@ impl Prop for C10 {
                         f(Case::snx("", vec![1, 1], vec![k[a].clone(), b.to_string()]));
                         f(Case::snx("", vec![1, 1], vec![b.to_string(), k[a].clone()]));
                         f(Case::snx("", vec![3, 1], vec![b.to_string(), k[a].clone()]));
+                    }
+                }
+            },
+        ));
+        v.push(Scope::new(
+            "blank-kinds",
+            "a subset of the components side by side and stacked, the gap made of no-break spaces, em spaces, figure spaces, narrow no-break spaces or ideographic spaces (two columns wide) instead of ASCII spaces, gaps 1..3",
+            |f| {
+                let k = components();
+                let sub: Vec<&String> = k.iter().step_by(5).collect();
+                for a in &sub {
+                    for b in &sub {
+                        for (bi, _) in BLANKS.iter().enumerate() {
+                            for gap in 1..=3 {
+                                f(Case::snx("", vec![7, gap, bi as i64], vec![(*a).clone(), (*b).clone()]));
+                                f(Case::snx("", vec![8, gap, bi as i64], vec![(*a).clone(), (*b).clone()]));
+                            }
+                        }
                     }
                 }
             },
@@ -242,6 +262,51 @@ impl Prop for C10 {
                 ch,
             );
             if da.elems.len() > 0 && db.elems.len() > 0 && dc.elems.len() > 0 {
+                cx.outcome(&joint.skeleton());
+            }
+            return;
+        }
+        if layout == 7 || layout == 8 {
+            let blank = BLANKS[case.n[2] as usize];
+            let bw = enumr::char_cols(blank);
+            let (wa, ha) = enumr::extent(a);
+            let (j, ox, oy) = if layout == 7 {
+                // side by side: every row of A padded with ASCII spaces to A's width, then the gap of special blanks, then B's row
+                let la: Vec<&str> = a.split('\n').collect();
+                let lb: Vec<&str> = b.split('\n').collect();
+                let n = la.len().max(lb.len());
+                let mut rows = vec![];
+                for i in 0..n {
+                    let ra = la.get(i).copied().unwrap_or("");
+                    let rb = lb.get(i).copied().unwrap_or("");
+                    if rb.is_empty() {
+                        rows.push(ra.to_string());
+                    } else {
+                        rows.push(format!("{}{}{}{}", ra, " ".repeat(wa - enumr::display_cols(ra)), blank.to_string().repeat(gap), rb));
+                    }
+                }
+                (rows.join("\n"), wa + gap * bw, 0usize)
+            } else {
+                // stacked: the rows between A and B hold special blanks only
+                let mut rows: Vec<String> = a.split('\n').map(|x| x.to_string()).collect();
+                for _ in 0..gap {
+                    rows.push(blank.to_string().repeat(3));
+                }
+                rows.extend(b.split('\n').map(|x| x.to_string()));
+                (rows.join("\n"), 0usize, ha + gap)
+            };
+            let joint = match render(cx, &j) {
+                Some(x) => x,
+                None => return,
+            };
+            let (mut cw, mut ch) = canvas(&[(a, 0, 0), (b, ox, oy)]);
+            if has_quote(a) || has_quote(b) {
+                cw = joint.w;
+                ch = joint.h;
+            }
+            expect_union(cx, &format!("A and B separated by U+{:04X} blanks ({})", blank as u32, if layout == 7 { "side by side" } else { "stacked" }),
+                &[(&da, 0.0, 0.0), (&db, ox as f64 * s, oy as f64 * 2.0 * s)], &joint, cw, ch);
+            if !da.elems.is_empty() && !db.elems.is_empty() {
                 cx.outcome(&joint.skeleton());
             }
             return;
